@@ -49,6 +49,7 @@ pub struct Profile {
     pub small_bias: bool, // keep sizes small (many streams)
     pub tree: bool,       // only operations expressible on the abstract tree; streams written whole
     pub flat: bool,       // most objects are created directly under the root, from a larger name pool
+    pub hygiene: bool,    // drop a handle before its stream is removed / opened again (C06-C08 assume it; C11 does not)
     pub maxbufs: &'static [usize],
 }
 
@@ -72,6 +73,7 @@ pub fn profile(name: &str) -> Profile {
         small_bias: false,
         tree: false,
         flat: false,
+        hygiene: true,
         maxbufs: &[1, 1024, 1500, 4096, 1 << 20],
     };
     match name {
@@ -208,6 +210,28 @@ pub fn profile(name: &str) -> Profile {
             bad_names: 0,
             small_bias: true,
             flat: true,
+            ..base
+        },
+        // several handles on the same stream, handles kept across removal, overwrite and
+        // slot reuse: nothing may panic (C11 quantifies over every call sequence)
+        "shared" => Profile {
+            name: "shared",
+            steps: (25, 60),
+            w_create_storage: 3,
+            w_create_stream: 16,
+            w_remove: 14,
+            w_remove_all: 1,
+            w_meta: 1,
+            w_query: 2,
+            w_handle_open: 22,
+            w_handle_io: 40,
+            w_cat: 4,
+            w_reopen: 0,
+            w_refuse: 0,
+            unicode: 0,
+            bad_names: 0,
+            small_bias: true,
+            hygiene: false,
             ..base
         },
         "treebig" => Profile {
